@@ -156,6 +156,7 @@ class Scaling(Interp):
         self.eps_max = eps_max
         self.notes: List[str] = []
         self.definite: List[str] = []
+        self.atom_sums = False
         self.stores: List[Tuple[ast.stmt, str, SV, SV]] = []  # (stmt, target, index value, stored value)
         self.compares: List[Tuple[ast.Compare, SV, SV]] = []
         self.calls: List[Tuple[ast.Call, str, List[SV]]] = []
@@ -298,6 +299,8 @@ class Scaling(Interp):
             if self.is_eps(a) and b.kind in ("det", "sigabs", "sigpow"):
                 return b
             for q, lit in ((a, b), (b, a)):
+                if self.atom_sums and q.kind == "det" and q.m is not None and not q.m.only_coef() and lit.kind == "det" and lit.m is not None and lit.m.only_coef():
+                    return SV("det", Mono.sym(f"({q.m.show()}+{lit.m.show()})"), tag="atom")
                 if q.kind == "det" and q.m is not None and not q.m.only_coef() and lit.kind == "det" and lit.m is not None and lit.m.only_coef() and lit.tag == "lit":
                     self.definite.append(f"`{unparse(node)}`: the additive constant {lit.m.coef_value():g} is not a negligible regulariser (> {self.eps_max:g}): the law is biased for small signals")
                     return q
@@ -549,6 +552,7 @@ class Scaling(Interp):
         for p in params:
             env.setdefault(p, NONE_V)
         sub = Scaling(callee, self.repo, cls=self.cls if bound else callee.cls, config=self.config, attr_values=self.attr_values, method_models=self.method_models, depth=self.depth + 1, eps_max=self.eps_max)
+        sub.atom_sums = self.atom_sums
         sub.run(env)
         self.notes += sub.notes
         self.definite += sub.definite
